@@ -1344,3 +1344,258 @@ Proof.
       assert (h' <> h) by (intros ->; rewrite Hz in Hz'; discriminate).
       unfold sa, set_handle. cbn [s_handles set_handles]. rewrite znth_replace by lia. replace (h' =? h) with false by lia. exact Hz'.
 Qed.
+
+Lemma X_addrefs_local : forall rct s, (forall j, X j (addrefs_local rct s) = X j s + cls j (rct_caps rct)) /\
+  FA s (addrefs_local rct s) /\ FE s (addrefs_local rct s) /\ FH s (addrefs_local rct s) /\ s_queue (addrefs_local rct s) = s_queue s.
+Proof.
+  induction rct as [|[k|] rct IH]; intros s; simpl.
+  - split; [intros j; lia|split; [reflexivity|split; [apply FE_refl|split; [apply FH_refl|reflexivity]]]].
+  - destruct (IH (lref 1 k s)) as (A & B & C & D & E). split; [|split; [exact B|split; [exact C|split; [exact D|exact E]]]].
+    intros j. rewrite A, X_lref0. rewrite (Z.eqb_sym k j). destruct (j =? k); lia.
+  - destruct (IH s) as (A & B & C & D & E). split; [|split; [exact B|split; [exact C|split; [exact D|exact E]]]]. intros j. rewrite A. lia.
+Qed.
+
+Lemma ri_app_return : forall k r s s0 o0 ab, app_return cfg_fixed k r s = Ok (s0, o0, ab) -> (s_shut s = false -> live s) ->
+  (s_shut s = true -> s_ans s = []) -> RI s -> RI s0.
+Proof.
+  intros k r s s0 o0 ab H Lv Sa R. pose proof R as (Hx & Ti & Ai & Ec & Xm & Hb). unfold app_return in H.
+  destruct (find_running k (s_ans s)) as [[id a]|] eqn:Ef.
+  2:{ destruct (aget k (s_lcalls s)); inversion H; subst; [eapply RI_frame; [exact R|reflexivity..|apply R]|exact R]. }
+  destruct (s_shut s) eqn:Es; [rewrite (Sa eq_refl) in Ef; discriminate|]. pose proof (Lv eq_refl) as L.
+  destruct Ai as (K & P & He & Hxs).
+  pose proof (find_running_aget _ _ _ _ K Ef) as Ea. destruct (find_running_some _ _ _ _ Ef) as [[jr Hst] Hin].
+  pose proof (PA_aget _ _ _ P Ea) as (Na & Ra & Rc).
+  assert (Hret : a_ret a = false).
+  { destruct L as [_ (_ & _ & _ & Ao & _)]. simpl in Ao. destruct (Ao _ _ Hin) as [_ A2]. apply A2. rewrite Hst. discriminate. }
+  destruct (release_caps cfg_fixed (a_args a) s) as [[s1 o1]| |] eqn:E1; cbn [bind] in H; try discriminate.
+  destruct (rf_release_caps_ne _ _ _ _ E1 Na) as (A1 & B1 & C1 & X1). pose proof (aux_release_caps _ _ _ _ _ E1) as AQ1. unfold FA in A1.
+  set (a1 := set_a_args [] a) in *.
+  set (s1' := set_ans (aput id a1 (s_ans s1)) s1) in *.
+  assert (K1 : keys_ok (s_ans s1')) by (cbn [s1' s_ans set_ans]; rewrite A1; apply keys_aput; exact K).
+  assert (Pa1 : pa1 a1) by (split; [constructor|split; [reflexivity|exact Rc]]).
+  assert (Ai1 : AI s1').
+  { split; [exact K1|split; [cbn [s1' s_ans set_ans]; rewrite A1; apply PA_aput; [exact P|exact Pa1]|split; [eapply EN_FE; [exact B1|exact He]|eapply XS_FE; [exact B1|exact Hxs]]]]. }
+  assert (X1' : forall j, X j s1' = 0).
+  { intros j. unfold s1'. rewrite X_set_ans, A1, (ANS_aput j id _ _ K), Ea, X1, Hx. cbn [awo]. unfold aw. cbn [a1 a_args a_rct set_a_args]. simpl cls. lia. }
+  assert (Ea1 : aget id (s_ans s1') = Some a1) by (cbn [s1' s_ans set_ans]; rewrite aget_aput, Z.eqb_refl; reflexivity).
+  assert (F1 : FH s s1') by (eapply FH_trans; [exact C1|repeat split]).
+  assert (Q1 : s_qs s1' = s_qs s) by (change (x_qs (aux_of s1) = s_qs s); rewrite AQ1; reflexivity).
+  assert (W0 : forall j, aw j a1 = 0) by (intros j; unfold aw; cbn [a1 a_args a_rct set_a_args]; rewrite (Rc Hret); reflexivity).
+  (* the running answer itself is not among the queued ones *)
+  assert (NIN : forall sm, s_ans sm = s_ans s1' -> ~ In id (queued_under (s_ans sm) (s_queue sm) [id])).
+  { intros sm Hsm Hi. apply queued_under_queued in Hi. destruct Hi as (a' & p & y & Hg & Hq). rewrite Hsm, Ea1 in Hg. inversion Hg; subst a'.
+    cbn [a1 a_st set_a_args] in Hq. rewrite Hst in Hq. discriminate. }
+  assert (FIN : forall sm sx sy (rc : list (option Z)), FH s1' sm -> AI sm -> s_ans sm = s_ans s1' -> s_qs sm = s_qs s1' ->
+            (forall j, X j sm = cls j (rct_caps rc)) ->
+            (FH sm sx /\ AI sx /\ OTL (queued_under (s_ans sm) (s_queue sm) [id]) sm sx /\ forall j, X j sx = X j sm) -> s_qs sx = s_qs sm ->
+            (FH sx sy /\ AI sy /\ OT id sx sy /\ forall j, X j sy = X j sx + awo j (aget id (s_ans sx)) - cls j (rct_caps rc)) -> s_qs sy = s_qs sx ->
+            RI sy).
+  { intros sm sx sy rc Fm Am Ansm Qm Xm' (F2 & A2 & O2 & D2) Q2 (F3 & A3 & O3 & D3) Q3.
+    eapply RI_keep; [exact R|eapply FH_trans; [exact F1|eapply FH_trans; [exact Fm|eapply FH_trans; eauto]]|congruence|exact A3|].
+    intros j. rewrite D3, D2, Xm', (O2 id (NIN sm Ansm)), Ansm, Ea1, Hx. cbn [awo]. rewrite W0. lia. }
+  destruct r as [fs| |].
+  - destruct (results_of fs) as [kc rct].
+    destruct (X_addrefs_local rct s1') as (XA & FAa & FEa & FHa & Qa).
+    match type of H with (bind ?x _) = _ => destruct x as [[[s3 o3] b3]| |] eqn:E3; cbn [bind] in H; try discriminate end.
+    match type of H with (bind ?x _) = _ => destruct x as [[[s4 o4] b4]| |] eqn:E4; cbn [bind] in H; try discriminate end.
+    inversion H; subst.
+    set (sm := addrefs_local rct s1') in *.
+    assert (Am : AI sm) by (eapply AI_FA_FE; eauto).
+    pose proof (rf_drain _ _ _ _ _ _ _ _ _ E3 Am) as D3.
+    destruct D3 as (F3 & A3 & O3 & X3).
+    pose proof (rf_send_return _ _ _ _ _ _ _ _ E4 A3 eq_refl) as D4.
+    pose proof (drain_qinert _ _ _ _ _ _ _ _ _ _ E3) as [(Qd & _) _]. pose proof (aux_send_return _ _ _ _ _ _ _ _ _ E4) as AQ4.
+    assert (Q4 : s_qs s0 = s_qs s3) by (change (x_qs (aux_of s0) = x_qs (aux_of s3)); rewrite AQ4; reflexivity).
+    assert (Qm : s_qs sm = s_qs s1') by (unfold sm; clear; generalize s1'; induction rct as [|[j|] rct IH]; intros sz; simpl; auto; rewrite IH; reflexivity).
+    assert (Xm0 : forall j, X j sm = cls j (rct_caps rct)) by (intros j; unfold sm; rewrite XA, X1'; lia).
+    exact (FIN sm s3 s0 rct FHa Am FAa Qm Xm0 (conj F3 (conj A3 (conj O3 X3))) Qd D4 Q4).
+  - match type of H with (bind ?x _) = _ => destruct x as [[[s3 o3] b3]| |] eqn:E3; cbn [bind] in H; try discriminate end.
+    match type of H with (bind ?x _) = _ => destruct x as [[[s4 o4] b4]| |] eqn:E4; cbn [bind] in H; try discriminate end.
+    inversion H; subst.
+    pose proof (rf_drain _ _ _ _ _ _ _ _ _ E3 Ai1) as (F3 & A3 & O3 & X3).
+    pose proof (rf_send_return _ _ _ _ _ _ _ _ E4 A3 eq_refl) as D4.
+    pose proof (drain_qinert _ _ _ _ _ _ _ _ _ _ E3) as [(Qd & _) _]. pose proof (aux_send_return _ _ _ _ _ _ _ _ _ E4) as AQ4.
+    assert (Q4 : s_qs s0 = s_qs s3) by (change (x_qs (aux_of s0) = x_qs (aux_of s3)); rewrite AQ4; reflexivity).
+    exact (FIN s1' s3 s0 [] (FH_refl s1') Ai1 eq_refl eq_refl (fun j => X1' j) (conj F3 (conj A3 (conj O3 X3))) Qd D4 Q4).
+  - match type of H with (bind ?x _) = _ => destruct x as [[[s3 o3] b3]| |] eqn:E3; cbn [bind] in H; try discriminate end.
+    match type of H with (bind ?x _) = _ => destruct x as [[[s4 o4] b4]| |] eqn:E4; cbn [bind] in H; try discriminate end.
+    inversion H; subst.
+    pose proof (rf_reject_all _ _ _ _ _ E3 Ai1) as (F3 & A3 & O3 & X3).
+    pose proof (rf_send_exception _ _ _ _ _ _ E4 A3 eq_refl) as (F4 & A4 & O4 & X4).
+    pose proof (reject_all_qinert _ _ _ _ _ _ E3) as [(Qd & _) _]. pose proof (aux_send_exception _ _ _ _ _ _ _ E4) as AQ4.
+    eapply RI_keep; [exact R|eapply FH_trans; [exact F1|eapply FH_trans; eauto]| |exact A4|].
+    + transitivity (s_qs s3); [change (x_qs (aux_of s0) = x_qs (aux_of s3)); rewrite AQ4; reflexivity|]. transitivity (s_qs s1'); [exact Qd|exact Q1].
+    + intros j. rewrite X4, X3, (O3 id (NIN s1' eq_refl)), Ea1, X1', Hx. cbn [awo]. unfold aw. cbn [a1 a_args a_rct set_a_args]. simpl cls. lia.
+Qed.
+
+(* ---------------------------------------------------------------- every handler of a connection that is up *)
+Lemma ri_handler : forall e s s0 o0 ab, handler cfg_fixed e s = Ok (s0, o0, ab) -> (s_shut s = false -> live s) ->
+  (s_shut s = true -> s_qs s = [] /\ s_ans s = []) -> env_ok s e = true -> RI s -> RI s0.
+Proof.
+  intros e s s0 o0 ab H Lv Sh Henv R.
+  destruct e; simpl in H; try (inversion H; subst; exact R; fail).
+  - eapply ri_handle_bootstrap; eauto.
+  - eapply ri_handle_call; eauto.
+  - eapply ri_handle_return; eauto.
+  - eapply ri_handle_finish; eauto.
+  - eapply ri_handle_release; eauto.
+  - eapply ri_handle_disembargo; eauto.
+  - eapply ri_app_bootstrap; eauto.
+  - eapply ri_app_call; eauto.
+  - eapply ri_app_pipe; eauto.
+  - eapply ri_app_return; eauto. intros Hs. apply (Sh Hs).
+  - eapply ri_app_release; eauto. intros Hs. apply (Sh Hs).
+  - eapply ri_app_cancel; eauto.
+  - eapply ri_app_hold; eauto.
+  - eapply ri_app_unhold; eauto.
+Qed.
+
+(* ---------------------------------------------------------------- shutdown, and the connection afterwards *)
+Definition RS (s : state) : Prop :=
+  s_qs s = [] /\ s_ans s = [] /\ s_exp s = [] /\ s_emb s = [] /\ s_boot s = false /\
+  (forall j, cget j (s_lrefs s) = HND j (s_handles s)) /\ (forall e, HE e (s_handles s) = 0).
+
+Lemma hw_fail : forall j h, hw j (fail_handle h) = hw j h. Proof. intros j h. destruct h; reflexivity. Qed.
+Lemma he_fail : forall e h, he e (fail_handle h) = he e h. Proof. intros e h. destruct h; reflexivity. Qed.
+Lemma HND_fail : forall j l, HND j (map fail_handle l) = HND j l.
+Proof. intros j l. induction l as [|h l IH]; simpl; [reflexivity|]. rewrite IH, hw_fail. reflexivity. Qed.
+Lemma HE_fail : forall e l, HE e (map fail_handle l) = HE e l.
+Proof. intros e l. induction l as [|h l IH]; simpl; [reflexivity|]. rewrite IH, he_fail. reflexivity. Qed.
+
+Lemma cls_exp_clients : forall j t, cls j (exp_clients t) = EXP j t.
+Proof. intros j t. unfold exp_clients. induction t as [|[[x w]|] t IH]; simpl; [reflexivity| |exact IH]. rewrite IH. lia. Qed.
+Lemma noemb_exp_clients : forall t, EN t -> noemb (exp_clients t).
+Proof.
+  intros t H. unfold noemb, exp_clients. apply Forall_forall. intros x Hx. apply in_flat_map in Hx. destruct Hx as ([[y w]|] & Hin & Hy); [|destruct Hy].
+  destruct Hy as [<-|[]]. eapply H; eauto.
+Qed.
+
+(* the arguments of every answer are released while the table still lists them *)
+Lemma rf_release_all_args : forall l s s1 o, release_all_args cfg_fixed l s = Ok (s1, o) -> PA l ->
+  FA s s1 /\ FE s s1 /\ FH s s1 /\ s_qs s1 = s_qs s /\ forall j, X j s1 = X j s - fold_right (fun p acc => cls j (a_args (snd p)) + acc) 0 l.
+Proof.
+  induction l as [|[id a] l IH]; intros s s1 o H P; simpl in H.
+  - inversion H; subst. split; [reflexivity|split; [apply FE_refl|split; [apply FH_refl|split; [reflexivity|intros j; simpl; lia]]]].
+  - destruct (release_caps cfg_fixed (a_args a) s) as [[sa oa]| |] eqn:E1; cbn [bind] in H; try discriminate.
+    destruct (release_all_args cfg_fixed l sa) as [[sb ob]| |] eqn:E2; cbn [bind] in H; try discriminate. inversion H; subst.
+    destruct (rf_release_caps_ne _ _ _ _ E1 (proj1 (P id a (or_introl eq_refl)))) as (A1 & B1 & C1 & X1). pose proof (aux_release_caps _ _ _ _ _ E1) as AQ.
+    destruct (IH _ _ _ E2 (fun i b Hi => P i b (or_intror Hi))) as (A2 & B2 & C2 & Q2 & X2).
+    split; [eapply FA_trans; eauto|split; [eapply FE_trans; eauto|split; [eapply FH_trans; eauto|split; [|intros j; rewrite X2, X1; simpl; lia]]]].
+    rewrite Q2. change (x_qs (aux_of sa) = x_qs (aux_of s)). rewrite AQ. reflexivity.
+Qed.
+
+Lemma rf_release_answers : forall l s s1 o, release_answers cfg_fixed l s = Ok (s1, o) ->
+  FA s s1 /\ FE s s1 /\ FH s s1 /\ s_qs s1 = s_qs s /\ forall j, X j s1 = X j s - fold_right (fun p acc => cls j (rct_caps (a_rct (snd p))) + acc) 0 l.
+Proof.
+  induction l as [|[id a] l IH]; intros s s1 o H; simpl in H.
+  - inversion H; subst. split; [reflexivity|split; [apply FE_refl|split; [apply FH_refl|split; [reflexivity|intros j; simpl; lia]]]].
+  - destruct (release_caps cfg_fixed _ s) as [[sa oa]| |] eqn:E1; cbn [bind] in H; try discriminate. rewrite andb_false_r in H.
+    destruct (release_answers cfg_fixed l sa) as [[sb ob]| |] eqn:E2; cbn [bind] in H; try discriminate. inversion H; subst.
+    destruct (rf_release_caps_ne _ _ _ _ E1 (noemb_rct _)) as (A1 & B1 & C1 & X1). pose proof (aux_release_caps _ _ _ _ _ E1) as AQ.
+    destruct (IH _ _ _ E2) as (A2 & B2 & C2 & Q2 & X2).
+    split; [eapply FA_trans; eauto|split; [eapply FE_trans; eauto|split; [eapply FH_trans; eauto|split; [|intros j; rewrite X2, X1; simpl; lia]]]].
+    rewrite Q2. change (x_qs (aux_of sa) = x_qs (aux_of s)). rewrite AQ. reflexivity.
+Qed.
+
+Lemma ANS_split : forall j l, ANS j l = fold_right (fun p acc => cls j (a_args (snd p)) + acc) 0 l + fold_right (fun p acc => cls j (rct_caps (a_rct (snd p))) + acc) 0 l.
+Proof. intros j l. induction l as [|[id a] l IH]; simpl; [reflexivity|]. rewrite IH. unfold aw. lia. Qed.
+
+(* lifting every embargo of the saved table [t] (entries from index i on); [W j] is what the entries still hold *)
+Fixpoint EMBs (j : Z) (t : tbl embent) : Z := match t with [] => 0 | o :: r => mw j o + EMBs j r end.
+Lemma EMBs_EMB : forall j t, EMBs j t = EMB j t. Proof. intros j t. induction t as [|o t IH]; simpl; [reflexivity|]. rewrite IH. reflexivity. Qed.
+
+Lemma rf_lift_all : forall t i s s1 o, lift_all cfg_fixed t i s = Ok (s1, o) ->
+  (forall k em, nth_error t k = Some (Some em) -> not_emb (e_cap em) /\ e_refs em = HE (i + Z.of_nat k) (s_handles s)) ->
+  (forall e, e < i -> HE e (s_handles s) = 0) ->
+  (forall e, i + Z.of_nat (length t) <= e -> HE e (s_handles s) = 0) ->
+  (forall k, nth_error t k = Some None -> HE (i + Z.of_nat k) (s_handles s) = 0) ->
+  FA s s1 /\ FE s s1 /\ s_emb s1 = s_emb s /\ s_boot s1 = s_boot s /\ s_qs s1 = s_qs s /\
+  (forall j, X j s1 = X j s - EMBs j t) /\ (forall e, HE e (s_handles s1) = 0).
+Proof.
+  induction t as [|[em|] t IH]; intros i s s1 o H Hent Hlo Hhi Hnone; simpl in H.
+  - inversion H; subst. split; [reflexivity|split; [apply FE_refl|split; [reflexivity|split; [reflexivity|split; [reflexivity|split; [intros j; simpl; lia|]]]]]].
+    intros e. destruct (Z_lt_le_dec e i); [apply Hlo; exact l|apply Hhi; simpl; lia].
+  - destruct (lift cfg_fixed i em s) as [[sa oa]| |] eqn:E1; cbn [bind] in H; try discriminate.
+    destruct (lift_all cfg_fixed t (i + 1) sa) as [[sb ob]| |] eqn:E2; cbn [bind] in H; try discriminate. inversion H; subst.
+    destruct (Hent 0%nat em eq_refl) as [Nc Hr]. rewrite Z.add_0_r in Hr.
+    destruct (rf_lift _ _ _ _ _ E1 Nc Hr) as (A1 & B1 & C1 & D1 & M1 & Q1 & Hh1 & X1).
+    assert (HEa : forall e, HE e (s_handles sa) = if e =? i then 0 else HE e (s_handles s)) by (intros e; rewrite Hh1; apply HE_rewrite; exact Nc).
+    destruct (IH (i + 1) sa s1 ob E2) as (A2 & B2 & C2 & D2 & Q2 & X2 & Z2).
+    + intros k em' Hk. destruct (Hent (S k) em' Hk) as [N' R']. split; [exact N'|]. rewrite HEa. replace (i + 1 + Z.of_nat k =? i) with false by lia.
+      rewrite R'. f_equal. lia.
+    + intros e He. rewrite HEa. destruct (e =? i) eqn:E; [reflexivity|apply Hlo; lia].
+    + intros e He. rewrite HEa. replace (e =? i) with false by (simpl in He; lia). apply Hhi. simpl. lia.
+    + intros k Hk. rewrite HEa. replace (i + 1 + Z.of_nat k =? i) with false by lia. replace (i + 1 + Z.of_nat k) with (i + Z.of_nat (S k)) by lia. apply Hnone. exact Hk.
+    + split; [eapply FA_trans; eauto|split; [eapply FE_trans; eauto|split; [congruence|split; [congruence|split; [congruence|split; [|exact Z2]]]]]].
+      intros j. rewrite X2, X1. simpl. lia.
+  - destruct (IH (i + 1) s s1 o H) as (A2 & B2 & C2 & D2 & Q2 & X2 & Z2).
+    + intros k em' Hk. destruct (Hent (S k) em' Hk) as [N' R']. split; [exact N'|]. rewrite R'. f_equal. lia.
+    + intros e He. destruct (Z.eq_dec e i); [subst; pose proof (Hnone 0%nat eq_refl) as Z0; rewrite Z.add_0_r in Z0; exact Z0|apply Hlo; lia].
+    + intros e He. apply Hhi. simpl. lia.
+    + intros k Hk. replace (i + 1 + Z.of_nat k) with (i + Z.of_nat (S k)) by lia. apply Hnone. exact Hk.
+    + split; [exact A2|split; [exact B2|split; [exact C2|split; [exact D2|split; [exact Q2|split; [|exact Z2]]]]]]. intros j. rewrite X2. simpl. lia.
+Qed.
+
+Lemma tget_nth_none : forall A (t : tbl A) k, nth_error t k = Some None -> tget (Z.of_nat k) t = None.
+Proof.
+  intros A t k H. unfold tget, znth. assert (k < length t)%nat by (apply nth_error_Some; rewrite H; discriminate).
+  replace ((Z.of_nat k <? 0) || (Z.of_nat (length t) <=? Z.of_nat k)) with false by lia. rewrite Nat2Z.id, H. reflexivity.
+Qed.
+Lemma tget_out : forall A (t : tbl A) e, e < 0 \/ Z.of_nat (length t) <= e -> tget e t = None.
+Proof. intros A t e H. unfold tget, znth. replace ((e <? 0) || (Z.of_nat (length t) <=? e)) with true by lia. reflexivity. Qed.
+
+Lemma do_shutdown_RS : forall abort s s1 o, do_shutdown cfg_fixed abort s = Ok (s1, o) -> RI s -> RS s1.
+Proof.
+  intros abort s s1 o H R. pose proof R as (Hx & Ti & (K & P & He & Hxs) & Ec & Xm & Hb). unfold do_shutdown in H.
+  set (s0 := set_shut true s) in *.
+  destruct (release_all_args cfg_fixed (s_ans s0) s0) as [[sa o1]| |] eqn:E1; cbn [bind] in H; try discriminate.
+  destruct (rf_release_all_args _ _ _ _ E1 P) as (A1 & B1 & C1 & Q1 & X1). unfold FA in A1. change (s_ans s0) with (s_ans s) in *.
+  set (s2 := set_handles (map fail_handle (s_handles sa)) (set_queue [] (set_busy [] (set_dead [] (set_imp [] (set_exp [] (set_qs [] (set_ans [] sa)))))))) in *.
+  set (s3 := if s_boot s2 then set_boot false (lref (-1) 0 s2) else s2) in *.
+  destruct (release_caps cfg_fixed (exp_clients (s_exp sa)) s3) as [[s4 o4]| |] eqn:E4; cbn [bind] in H; try discriminate.
+  destruct (lift_all cfg_fixed (s_emb s4) 0 (set_emb [] s4)) as [[s5 o5]| |] eqn:E5; cbn [bind] in H; try discriminate.
+  destruct (release_answers cfg_fixed (s_ans sa) s5) as [[s6 o6]| |] eqn:E6; cbn [bind] in H; try discriminate.
+  inversion H; subst. clear H.
+  destruct C1 as (C1h & C1e & C1b & C1m). destruct B1 as (B1e & B1g).
+  assert (Xs0 : forall j, X j s0 = 0) by (intros j; rewrite <- (Hx j); apply X_eq; reflexivity).
+  (* s2 *)
+  assert (X2 : forall j, X j s2 = fold_right (fun p acc => cls j (rct_caps (a_rct (snd p))) + acc) 0 (s_ans s) + EXP j (s_exp s)).
+  { intros j. unfold X, RC. cbn [s2 s_boot s_exp s_ans s_handles s_emb s_lrefs set_handles set_queue set_busy set_dead set_imp set_exp set_qs set_ans].
+    rewrite HND_fail. specialize (X1 j). unfold X, RC in X1. specialize (Xs0 j). unfold X, RC in Xs0.
+    change (s_boot s0) with (s_boot s) in *. change (s_exp s0) with (s_exp s) in *. change (s_handles s0) with (s_handles s) in *.
+    change (s_emb s0) with (s_emb s) in *. change (s_lrefs s0) with (s_lrefs s) in *. change (s_ans s0) with (s_ans s) in *.
+    rewrite A1, B1e, C1h, C1e, C1b in X1. rewrite C1h, C1e, C1b. simpl EXP. simpl ANS. rewrite (ANS_split j (s_ans s)) in *. destruct (s_boot s && (j =? 0)); lia. }
+  assert (X3 : forall j, X j s3 = X j s2).
+  { intros j. unfold s3. destruct (s_boot s2) eqn:Eb; [|reflexivity]. unfold X, RC.
+    cbn [s_boot s_exp s_ans s_handles s_emb s_lrefs set_boot lref set_lrefs]. rewrite Eb, cget_cadd. cbn [andb]. destruct (j =? 0) eqn:E0; [assert (j = 0) by lia; subst j|]; cbv iota; lia. }
+  assert (F3 : s_ans s3 = [] /\ s_exp s3 = [] /\ s_qs s3 = [] /\ s_emb s3 = s_emb s /\ s_handles s3 = map fail_handle (s_handles s) /\ s_boot s3 = false).
+  { unfold s3. destruct (s_boot s2) eqn:Eb; cbn [s2 s_boot s_exp s_ans s_qs s_handles s_emb set_boot lref set_lrefs set_handles set_queue set_busy set_dead set_imp set_exp set_qs set_ans];
+      rewrite ?C1h, ?C1e; repeat split; try reflexivity. exact Eb. }
+  destruct F3 as (F3a & F3e & F3q & F3m & F3h & F3b).
+  destruct (rf_release_caps_ne _ _ _ _ E4 (noemb_exp_clients (s_exp sa) ltac:(rewrite B1e; exact He))) as (A4 & (B4e & B4g) & (C4h & C4e & C4b & C4m) & X4).
+  pose proof (aux_release_caps _ _ _ _ _ E4) as AQ4. unfold FA in A4.
+  assert (Q4 : s_qs s4 = []) by (change (x_qs (aux_of s4) = []); rewrite AQ4; exact F3q).
+  assert (Em4 : s_emb s4 = s_emb s) by congruence.
+  assert (Hh4 : s_handles s4 = map fail_handle (s_handles s)) by congruence.
+  (* the embargoes *)
+  rewrite Em4 in E5.
+  destruct (rf_lift_all (s_emb s) 0 (set_emb [] s4) s5 o5 E5) as (A5 & (B5e & B5g) & C5 & D5 & Q5 & X5 & Z5).
+  { intros k em Hk. cbn [s_handles set_emb]. rewrite Hh4, HE_fail. assert (Tg : tget (Z.of_nat k) (s_emb s) = Some em).
+    { apply nth_tget. exact Hk. }
+    split; [apply Ec; eapply tget_in; eauto|]. specialize (Ti (Z.of_nat k)). rewrite Tg in Ti. simpl in Ti. simpl. lia. }
+  { intros e Hlt. cbn [s_handles set_emb]. rewrite Hh4, HE_fail. specialize (Ti e). rewrite (tget_out _ _ e (or_introl Hlt)) in Ti. apply Ti. }
+  { intros e Hge. cbn [s_handles set_emb]. rewrite Hh4, HE_fail. specialize (Ti e). assert (Hge' : Z.of_nat (length (s_emb s)) <= e) by lia. rewrite (tget_out _ _ e (or_intror Hge')) in Ti. apply Ti. }
+  { intros k Hk. cbn [s_handles set_emb]. rewrite Hh4, HE_fail. specialize (Ti (0 + Z.of_nat k)). simpl in Ti. rewrite (tget_nth_none _ _ _ Hk) in Ti. apply Ti. }
+  destruct (rf_release_answers _ _ _ _ E6) as (A6 & (B6e & B6g) & (C6h & C6e & C6b & C6m) & Q6 & X6). unfold FA in A5, A6.
+  cbn [s_ans s_exp s_emb s_boot s_qs set_emb] in *.
+  assert (Xf : forall j, X j s1 = 0).
+  { intros j. rewrite X6, X5, A1. unfold X at 1, RC. cbn [s_boot s_exp s_ans s_handles s_emb s_lrefs set_emb].
+    specialize (X4 j). rewrite X3, X2 in X4. unfold X, RC in X4. rewrite cls_exp_clients in X4.
+    assert (EE : EXP j (s_exp sa) = EXP j (s_exp s)) by (f_equal; exact B1e). pose proof (EMBs_EMB j (s_emb s)) as EM. change (EMB j []) with 0.
+    assert (E4m : EMB j (s_emb s4) = EMB j (s_emb s)) by (f_equal; congruence). destruct (s_boot s4 && (j =? 0)); lia. }
+  split; [congruence|split; [congruence|split; [congruence|split; [congruence|split; [congruence|split]]]]].
+  - intros j. specialize (Xf j). unfold X, RC in Xf.
+    assert (E1' : s_boot s1 = false) by congruence. assert (E2' : s_exp s1 = []) by congruence. assert (E3' : s_ans s1 = []) by congruence.
+    assert (E4' : s_emb s1 = []) by congruence. rewrite E1', E2', E3', E4' in Xf. simpl in Xf. lia.
+  - intros e. rewrite C6h. apply Z5.
+Qed.
